@@ -292,6 +292,9 @@ def main(argv=None):
                        "out of scope: the Go-side marshalling in lang/go/*/marshal.go (no Go toolchain); alignment of the buffer accesses (C17)"]
     chk.rule = ("one evaluation = one obligation; length:* are solver queries over symbolic l / length / first byte; roundtrip:* combine A-MEM bounds checks, solver queries "
                 "on the index bytes, slot count and flags, and ground comparisons of formal group elements; reject:* are propositional queries over the decode results")
+    # lower layers whose specifications this check relies on: their obligations are part of this check's claim (framework.Check.include)
+    for dep in ['C09', 'C02', 'C04', 'C05']:
+        chk.include(dep)
     chk.run()
     chk.finish()
 
